@@ -33,7 +33,7 @@ def ids(args):
     return [i for i in all_ if not sel or i in sel or i.split("-")[0] in sel]
 
 def collect():
-    for out in sorted(glob.glob("/tmp/wt/C*/_out/m*") + glob.glob("/tmp/wt2/C*/_out/m*") + glob.glob("/tmp/wt3/C*/_out/m*")):
+    for out in sorted(glob.glob("/tmp/wt/C*/_out/m*") + glob.glob("/tmp/wt2/C*/_out/m*") + glob.glob("/tmp/wt3/C*/_out/m*") + glob.glob("/tmp/wt6/C*/_out/m*")):
         pid = out.split("/")[3]
         k = os.path.basename(out)
         dst = os.path.join(S, "%s-%s" % (pid, k))
